@@ -182,6 +182,10 @@ func LiveLabel(o map[string]any, k string) (string, bool) {
 	return fmt.Sprint(v), true
 }
 
+// LiveLabelOr / LiveAnnotationOr return "" when the key is absent.
+func LiveLabelOr(o map[string]any, k string) string      { v, _ := LiveLabel(o, k); return v }
+func LiveAnnotationOr(o map[string]any, k string) string { v, _ := LiveAnnotation(o, k); return v }
+
 // DecodeObj decodes a snapshot entry.
 func DecodeObj(s string) map[string]any {
 	if s == "" {
